@@ -1,2 +1,98 @@
-(* Corr/C06Run.v — C06 uses the shared L1 correspondence evaluator. *)
+(* Corr/C06Run.v — C06 correspondence evaluator: the shared L1 cases (Corr/LsmRun.v) plus the cases that tie the
+   picker/installer model Lsm/Pick.v to the running code:
+     KPick     an observed table compaction (or trivial move): the version it was picked on, source level, seed tables,
+               limits; the model's newCompaction must yield exactly the observed inputs of both levels, the observed
+               grandparent set, and the observed move/no-move decision;
+     KFinish   every committed record: base version, deleted/added tables, the flag passed to finish; the model's finish
+               must yield exactly the observed layout (table numbers per level, in order);
+     KOverlaps a direct probe of tFiles.getOverlaps on a live level (both variants, nil bounds included);
+     KMemLevel a direct probe of version.pickMemdbLevel on the live version.
+   Tables travel as bounds only (number, size, first and last internal key): the modelled functions read nothing else. *)
 From GL Require Export Corr.LsmRun.
+From GL Require Import Base.Bytes Codec.IKey Corr.Cmps Gen.Consts Gen.Inst Lsm.Lsm Lsm.Compact Lsm.Pick.
+From Coq Require Import String.
+
+Inductive kmeta := KM (num size : N) (lo hi : kentry).
+
+Inductive c06case :=
+| KL (x : lsmcase)
+| KPick (cid : N) (v : list (list kmeta)) (lvl : N) (seed : list N) (limit maxgp : N) (noTrivial moved : bool)
+        (obs0 obs1 gp : list N)
+| KFinish (cid : N) (base : list (list kmeta)) (trivial : bool) (dels : list (N * N)) (adds : list (N * kmeta))
+          (post : list (list N))
+| KOverlaps (cid : N) (tf : list kmeta) (umin umax : option string) (overlapped : bool) (obs : list N)
+| KMemLevel (cid : N) (v : list (list kmeta)) (umin umax : string) (gplimits : list N) (maxLevel : N) (obs : N).
+
+Definition to_mtable (m : kmeta) : table :=
+  match m with
+  | KM n _ lo hi =>
+      let a := to_entry lo in
+      let b := to_entry hi in
+      {| t_num := n; t_entries := if entry_eqb a b then [a] else [a; b] |}
+  end.
+Definition to_mlevels (v : list (list kmeta)) : list (list table) := map (map to_mtable) v.
+
+Definition sz_of (ms : list kmeta) (t : table) : N :=
+  match find (fun m => match m with KM n _ _ _ => n =? t_num t end) ms with
+  | Some (KM _ s _ _) => s
+  | None => 0
+  end.
+
+Fixpoint nums_eqb (a b : list N) : bool :=
+  match a, b with
+  | [], [] => true
+  | x :: a', y :: b' => (x =? y) && nums_eqb a' b'
+  | _, _ => false
+  end.
+Fixpoint layout_eqb (a b : list (list N)) : bool :=
+  match a, b with
+  | [], [] => true
+  | x :: a', y :: b' => nums_eqb x y && layout_eqb a' b'
+  | _, _ => false
+  end.
+
+Definition select (tf : list table) (nums : list N) : list table :=
+  List.concat (map (fun n => match find (fun t => t_num t =? n) tf with Some t => [t] | None => [] end) nums).
+
+Definition run_c06 (cs : c06case) : bool :=
+  match cs with
+  | KL x => run_case x && match x with
+                          | KWf cid lvls => wf_extrab (to_levels lvls)      (* with wf_versionb: Pick.wf_lsmb *)
+                          | _ => true
+                          end
+  | KPick cid v lvl seed limit maxgp noTrivial moved obs0 obs1 gp =>
+      let c := cmp_of_id cid in
+      let sz := sz_of (List.concat v) in
+      let lv := to_mlevels v in
+      let l := N.to_nat lvl in
+      let sd := select (nth l lv []) seed in
+      Nat.eqb (List.length sd) (List.length seed) &&
+      match new_compaction c sz lv l limit sd with
+      | POk cm => nums_eqb (nums_of (c_t0 cm)) obs0 && nums_eqb (nums_of (c_t1 cm)) obs1
+                  && nums_eqb (nums_of (c_gp cm)) gp
+                  && (if noTrivial then negb moved else Bool.eqb (trivial sz cm maxgp) moved)
+      | _ => false
+      end
+  | KFinish cid base trivial dels adds post =>
+      let c := cmp_of_id cid in
+      let ed := {| ed_del := map (fun x => (N.to_nat (fst x), snd x)) dels;
+                   ed_add := map (fun x => (N.to_nat (fst x), to_mtable (snd x))) adds |} in
+      match finish c trivial (to_mlevels base) ed with
+      | POk nv => layout_eqb (map nums_of nv) post
+      | _ => false
+      end
+  | KOverlaps cid tf umin umax overlapped obs =>
+      let c := cmp_of_id cid in
+      match get_overlaps c (map to_mtable tf) (option_map unhex umin) (option_map unhex umax) overlapped with
+      | POk r => nums_eqb (nums_of r) obs
+      | _ => false
+      end
+  | KMemLevel cid v umin umax gplimits maxLevel obs =>
+      let c := cmp_of_id cid in
+      let sz := sz_of (List.concat v) in
+      Nat.eqb (pick_memdb_level c kp sz (to_mlevels v) (Some (unhex umin)) (Some (unhex umax))
+                                (fun l => nth l gplimits 0) (N.to_nat maxLevel))
+              (N.to_nat obs)
+  end.
+
+Definition mismatches06 (l : list c06case) : list N := mism_from run_c06 0 l.
